@@ -15,7 +15,7 @@ def run(ctx):
     for fs in ctx.featuresets():
         c = ctx.mir(fs)["ts_rs"]
         res = [E.lock_region_rule(c, "C05"), E.single_writer_rule(c, "C05", ctx.syn), E.idempotence_rule(c, "C05"),
-               D.ordered_output_rule(c, "C05", rule="C05.R4"), P.lock_panic_rule(c, "C05"), MR.merge_blocks_rule(c, "C05"), MR.sort_key_agreement_rule(c, "C05"), MR.import_union_rule(c, "C05"), MR.merge_verbatim_rule(c, "C05"), E.normaliser_purity_rule(c, "C05", rule="C05.R12"), MR.declaration_blank_line_rule(c, "C05"), E.fs_query_owner_rule(c, "C05", rule="C05.R14"), E.write_path_verbatim_rule(c, "C05")]
+               D.ordered_output_rule(c, "C05", rule="C05.R4"), P.lock_panic_rule(c, "C05"), MR.merge_blocks_rule(c, "C05"), MR.sort_key_agreement_rule(c, "C05"), MR.import_union_rule(c, "C05"), MR.merge_verbatim_rule(c, "C05"), MR.declaration_name_occurrence_rule(c, "C05"), E.normaliser_purity_rule(c, "C05", rule="C05.R12"), MR.declaration_blank_line_rule(c, "C05"), E.fs_query_owner_rule(c, "C05", rule="C05.R14"), E.write_path_verbatim_rule(c, "C05")]
         if fs == "default":
             from rules import libimpls as L
             res.append(L.units_rule(c, "C05", rule="C05.R16"))
